@@ -257,7 +257,9 @@ def deserialize_address(address, encoding=None, network=None):
 
     if encoding is None or encoding == 'base58':
         try:
-            address_bytes = change_base(address, 58, 256, 25)
+            address_bytes = change_base(address, 58, 256)
+            if len(address_bytes) < 5:
+                raise EncodingError("Invalid address %s, too short" % address)
         except EncodingError:
             pass
         else:
